@@ -124,6 +124,44 @@ def gen(cls, maxlen=8):
     w('    delete ap;')
     w('    vp_reach("h_default:end");')
     w('}')
+    # ---- one container at a boundary length (narrowing of length fields, 8/16-bit wrap-around)
+    conts = [lf for lf in lv if lf.kind in ('vector', 'string')]
+    if conts:
+        w('#ifdef VP_BIG_IDX')
+        w('static unsigned char bbuf1[VP_BIG_CAP], bbuf2[VP_BIG_CAP];')
+        w('static void fill_big(T & a) {')
+        if len(codes) > 1:
+            w('    static const uint32_t codes[] = {%s};' % ', '.join(str(v) for _, v in codes))
+            w('    uint32_t k = vp_choose(%d, "objectType_choice");' % len(codes))
+            w('    uint32_t c = codes[k]; memcpy(&a.objectType, &c, 4);')
+        for lf in lv:
+            if lf.path in ('signature', 'headerVersion', 'objectType'):
+                continue
+            if lf.kind in ('vector', 'string'):
+                k = conts.index(lf)
+                w('#if VP_BIG_IDX == %d' % k)
+                w('    a.%s.resize(VP_BIG_LEN); vp_bytes(&a.%s[0], 4 * sizeof(a.%s[0]), "%s");' % (lf.path, lf.path, lf.path, lf.path))
+                w('#endif')
+            else:
+                w('    vp_fill(a.%s, "%s%s");' % (lf.path, 'stale:' if lf.path in stale else '', lf.path))
+        w('}')
+        w('extern "C" void h_big() {')
+        w('    T * ap = new T; T & a = *ap;')
+        w('    fill_big(a);')
+        w('    MemFile mf(bbuf1, sizeof bbuf1);')
+        w('    a.write(mf);')
+        w('    vp_note("overflow", mf.overflow); vp_note("p1", mf.p);')
+        w('    vp_out(bbuf1, mf.p, "bytes1");')
+        w('    { MemFile hm(hb, sizeof hb); a.%s::write(hm); vp_note("hdr_emitted", hm.p); }' % hdr)
+        w('    expo(a, "a");')
+        w('    T b; vp_watch(&b, sizeof b, "b");')
+        w('    b.read(mf);')
+        w('    vp_note("g2", mf.g); vp_note("good2", mf.good());')
+        w('    expo(b, "b");')
+        w('    delete ap;')
+        w('    vp_reach("h_big:end");')
+        w('}')
+        w('#endif')
     # ---- hostile decode
     w('#include <stdexcept>')
     w('#include <Vector/BLF/Exceptions.h>')
@@ -155,6 +193,31 @@ def gen(cls, maxlen=8):
     w('    vp_reach("h_dec:end");')
     w('}')
     return '\n'.join(L) + '\n'
+
+
+def big_lengths(cls):
+    """[(container index, path, [boundary lengths])]: lengths just above 8/16 bits that the container's length field
+    (reader-side pair) can still represent"""
+    info = reflect.reflect()['classes'][cls]
+    lv = leaves(cls)
+    conts = [lf for lf in lv if lf.kind in ('vector', 'string')]
+    lens = length_fields(cls)
+    by_cont = {}
+    for f, cont in lens.items():
+        by_cont.setdefault(cont, []).append(f)
+    width = {lf.path: (lf.size or 4) for lf in lv if lf.kind == 'int'}
+    out = []
+    for k, lf in enumerate(conts):
+        fs = by_cont.get(lf.path, [])
+        wbytes = min([width.get(f, 4) for f in fs] or [4])
+        ls = []
+        if wbytes >= 2:
+            ls.append(257)
+        if wbytes >= 4:
+            ls.append(65537)
+        if ls:
+            out.append((k, lf.path, ls))
+    return out
 
 
 def _viol(ex, st, kind, msg, model=None):
